@@ -148,6 +148,64 @@ class Operation(Contract):
         yield "result-is-empty", S.shape(result.values)[0] == 0 if len(S.shape(result.values)) else S.isnan(result.values if not S.is_dimarray(result) else S.at(result.values))
 
 
+class UnaryOperation(Contract):
+    """-a, +a (float data) and ~a (boolean data): NumPy's unary op on .values cell by cell, a's axes unchanged (equal labels, not
+    the same objects as far as the binary operators go), none of the operand's metadata on the result (unary operators are
+    arithmetic in the sense of C16), the operand untouched.  [C04's scalar sentence by analogy; C16, C15]"""
+    target = "dimarray.core.dimarraycls:DimArray._unary_op"
+    props = ("C04", "C16", "C15")
+    inlined = ("OpMixin.__neg__ / __pos__ / __invert__", "_constructor")
+
+    def cases(self, tier):
+        for op in ("neg", "pos", "invert"):
+            for rank in (1, 2):
+                yield {"name": "%s-r%d" % (op, rank), "op": op, "rank": rank}
+
+    def bound_lengths(self, case):
+        return ["a0.%s.n" % d for d in ("x", "y")[:case["rank"]]]
+
+    def setup(self, S, case):
+        dims = ["x", "y"][:case["rank"]]
+        a, la, xa = _make(S, 0, dims)
+        if case["op"] == "invert":
+            xa = S.arraynd("a0.mask", "b", tuple(S.n(la[d]) for d in dims))
+            a = S.da.DimArray(xa, axes=[S.da.Axis(la[d], d) for d in dims])
+            a.attrs.update(ATTRS)
+        return {"a": a, "labels": la, "data": xa, "old": S.snapshot(xa), "dims": dims, "axes0": list(a.axes)}
+
+    def call(self, fn, env):
+        a, op = env["a"], env["case"]["op"]
+        return -a if op == "neg" else (+a if op == "pos" else ~a)
+
+    def post(self, S, case, env, result):
+        dims, la = env["dims"], env["labels"]
+        yield "is-dimarray", S.is_dimarray(result)
+        ok = tuple(result.dims) == tuple(dims)
+        yield "dims-unchanged", ok
+        if not ok:
+            return
+        for i, d in enumerate(dims):
+            Lr, L = result.axes[i].values, la[d]
+            yield "%s:labels-unchanged" % d, S.land(S.n(Lr) == S.n(L), S.forall(0, S.n(L), lambda k, Lr=Lr, L=L: S.implies(k < S.n(Lr), lambda: S.at(Lr, k) == S.at(L, k))))
+        shape = [S.n(la[d]) for d in dims]
+        old, rv, op = env["old"], result.values, case["op"]
+        if op == "neg":
+            body = lambda *k: S.same(S.at(rv, *k), -S.at(old, *k))
+        elif op == "pos":
+            body = lambda *k: S.same(S.at(rv, *k), S.at(old, *k))
+        else:
+            body = lambda *k: S.at(rv, *k) == S.lnot(S.at(old, *k))
+        yield "cell-is-numpys-op-on-the-values", S.forall_nd(shape, body)
+        yield "no-metadata-of-the-operand", len(result.attrs) == 0
+        yield "a-new-array", S.land(result is not env["a"], S.lnot(S.same_buffer(result.values, env["a"].values)))
+        a = env["a"]
+        yield "operand-untouched", S.land(a.values is env["data"], all(u is v for u, v in zip(a.axes, env["axes0"])), dict(a.attrs) == ATTRS,
+                                          S.forall_nd(shape, lambda *p: S.same(S.at(env["data"], *p), S.at(old, *p)) if op != "invert" else S.at(env["data"], *p) == S.at(old, *p)))
+
+    def canaries(self, S, case, env, result):
+        yield "result-is-empty", S.shape(result.values)[0] == 0
+
+
 class ScalarOperation(Contract):
     """a op s, s op a (s a scalar) and a op v (v a plain ndarray of a's shape, right operand only): NumPy's op on .values,
     cell by cell, with a's axes unchanged (equal labels, not the same objects), for all six operators and both operand
